@@ -15,15 +15,7 @@ ASSUMPTIONS = ["expression values are compared exactly only where float arithmet
                "number literals of the theorems: unsigned decimals (digits, optional fraction)"]
 
 
-def sig_zerosum(f):
-    return f.get("function") == "QcConfigCreator.create_config" and f.get("category") == "zerosum"
-
-
-def sig_wrapyear(f):
-    return f.get("function") == "QcConfigCreator.create_config" and f.get("category") == "wrapyear"
-
-
-SIGNATURES = {"create_config_zero_sum_cells": sig_zerosum, "create_config_file_not_starting_in_january": sig_wrapyear}
+SIGNATURES = {}
 
 
 def run(ctx):
